@@ -63,12 +63,21 @@ def grid(thorough):
         if t not in seen:
             seen.append(t)
     if thorough:
+        for t in ((256, 17, (16384, 16384), "default"), (256, 3, (0, 0), "default"), (300, 100, (32768, 32768), "default"),
+                  (256, 2, (1, 1), "sqrt")):
+            if t not in seen:
+                seen.append(t)
         return seen
     keep = [t for i, t in enumerate(seen) if i % 4 == 0 or t[2] in ((32768, 0), (1, 0)) and i % 2 == 0]
     keep = keep[:36]
     # gain above unity TOGETHER with a non-linear curve, unquantised, normal and reversed window (always kept)
     for t in seen:
         if t[3] in ("sqrt", "square", "stair16") and t[0] > 256 and t[1] == 32768 and t[2] in (base_w, (32768, 0)) and t not in keep:
+            keep.append(t)
+    # a window of ZERO width (the target is pinned to one point) together with a quantizer, and without one
+    for t in ((256, 17, (16384, 16384), "default"), (256, 3, (0, 0), "default"), (300, 100, (32768, 32768), "default"),
+              (256, 32768, (16384, 16384), "default"), (256, 2, (1, 1), "sqrt")):
+        if t not in keep:
             keep.append(t)
     return keep
 
@@ -95,7 +104,15 @@ def build(tkey):
 
 
 def sweep(tkey, cattr, cnum, lo, hi, params, values):
-    g, q, (wmin, wmax), cname = params
+    g, q, (wmin, wmax), cname = params[:4]
+    lenient = len(params) > 4 and params[4] == "lenient"
+    if lenient:
+        # the library's lenient mode (out-of-range assignments are tolerated instead of refused) is a mode of the
+        # ASSIGNMENT interface; what a MultiCtl delivers stays inside the target's range in either mode
+        from rv.errors import override_raise_controller_value_errors
+
+        with override_raise_controller_value_errors(False):
+            return sweep(tkey, cattr, cnum, lo, hi, tuple(params[:4]) + ("lenient-inner",), values)
     p, tgt, mc = build(tkey)
     mp = mc.mappings.values[0]
     mp.min, mp.max, mp.controller = wmin, wmax, cnum
@@ -110,6 +127,9 @@ def sweep(tkey, cattr, cnum, lo, hi, params, values):
     reverse = wmin > wmax
     key = {"target": f"{tkey}.{cattr}", "window": "reversed" if reverse else "normal"}
     case = {"target": [tkey, cattr, cnum, lo, hi], "params": [g, q, [wmin, wmax], cname]}
+    if len(params) > 4:
+        key["mode"] = "lenient"
+        case["params"].append("lenient")
     n = 0
     for v in values:
         n += 1
@@ -195,6 +215,49 @@ def macro_all():
         except Exception as e:
             vs.append(C.viol("macro-wrong-error", {"what": label, "exc": type(e).__name__}, {"error": repr(e)[:200]}, {"macro16": True}))
     _ = before
+    return n, vs
+
+
+def macro_retry():
+    """A macro request the library REFUSES (initial value outside 0..32768) followed by the same request with a valid
+    value -- for the same targets, for some of them, for others: the MultiCtl of the second call is attached, linked to
+    each of its targets exactly once and drives all of them over their whole range."""
+    import rv.api as rv
+
+    vs, n = [], 0
+    specs = {"amp": ("Amplifier", "volume", 0, 1024), "gen": ("Generator", "panning", -128, 128), "flt": ("Filter", "freq", 0, 14000)}
+    for first, second in itertools.product((("amp", "gen"), ("amp",), ("gen", "flt"), ("amp", "gen", "flt")), repeat=2):
+        for bad in (40000, -1):
+            n += 1
+            case = {"macro_retry": [list(first), list(second), bad]}
+            key = {"refused_for": "same" if first == second else "overlapping" if set(first) & set(second) else "other"}
+            p = rv.Project()
+            mods = {k: p.new_module(getattr(rv.m, specs[k][0])) for k in specs}
+            try:
+                rv.m.MultiCtl.macro(p, *[(mods[k], specs[k][1]) for k in first], initial=bad)
+                continue            # the tree accepts the value: nothing was refused, nothing to retry
+            except Exception:
+                pass
+            try:
+                mc = rv.m.MultiCtl.macro(p, *[(mods[k], specs[k][1]) for k in second], initial=16384)
+            except Exception as e:
+                vs.append(C.viol("macro-raises", dict(key, exc=type(e).__name__, after="refused-macro"), {"error": repr(e)[:200]}, case))
+                continue
+            want = sorted(mods[k].index for k in second)
+            if mc.parent is not p or mc not in p.modules or sorted(x for x in mc.out_links if x >= 0) != want \
+                    or any(list(mods[k].in_links).count(mc.index) != 1 for k in second):
+                vs.append(C.viol("macro-not-linked", dict(key, after="refused-macro"),
+                                 {"out_links": list(mc.out_links), "targets": want,
+                                  "in_links": {k: list(mods[k].in_links) for k in second}}, case))
+                continue
+            mc.value = 0
+            at0 = {k: getattr(mods[k], specs[k][1]) for k in second}
+            mc.value = 32768
+            at1 = {k: getattr(mods[k], specs[k][1]) for k in second}
+            # every target follows the input: in range, and the top of the input range lands above the bottom
+            if any(not (specs[k][2] <= at0[k] < at1[k] <= specs[k][3]) for k in second):
+                vs.append(C.viol("macro-target-not-driven", dict(key, after="refused-macro"),
+                                 {"delivered_at_0": at0, "delivered_at_32768": at1}, case))
     return n, vs
 
 
@@ -491,11 +554,13 @@ def run_case(case):
         return unset_mapping()[1]
     if "dependent" in case:
         return [v for v in dependent_targets()[1] if v["case"] == case]
+    if "macro_retry" in case:
+        return [v for v in macro_retry()[1] if v["case"] == case]
     if "macro_order" in case:
         return [v for v in macro_orders()[1] if v["case"] == case]
     tkey, cattr, cnum, lo, hi = case["target"]
-    g, q, w, cn = case["params"]
-    return sweep(tkey, cattr, cnum, lo, hi, (g, q, tuple(w), cn), range(32769))[1]
+    g, q, w, cn = case["params"][:4]
+    return sweep(tkey, cattr, cnum, lo, hi, (g, q, tuple(w), cn) + tuple(case["params"][4:5]), range(32769))[1]
 
 
 def _task(t):
@@ -510,13 +575,16 @@ def _task(t):
     elif t[0] == "dependent":
         n, vs = dependent_targets()
         C.count(r, "dependent", n)
+    elif t[0] == "retry":
+        n, vs = macro_retry()
+        C.count(r, "retry", n)
     elif t[0] == "orders":
         n, vs = macro_orders()
         C.count(r, "orders", n)
     else:
         _k, (lo, hi, kind), (tkey, cattr, cnum), params = t
         n, vs = sweep(tkey, cattr, cnum, lo, hi, params, range(32769))
-        r["sample"] = {"target": [tkey, cattr, cnum, lo, hi], "params": [params[0], params[1], list(params[2]), params[3]]}
+        r["sample"] = {"target": [tkey, cattr, cnum, lo, hi], "params": [params[0], params[1], list(params[2]), params[3]] + list(params[4:])}
         C.count(r, "sweeps")
     r["evals"] = n
     r["violations"] = vs
@@ -535,7 +603,7 @@ def run(ctx):
         pick |= {keys[(ctx.seed * 7 + 3) % len(keys)], keys[(ctx.seed * 11 + 5) % len(keys)]}
         keys = sorted(pick, key=lambda k: (k[1] - k[0], k[0], k[2]))
     g = grid(ctx.thorough)
-    tasks = [("macro",), ("unset",), ("dependent",), ("orders",)]
+    tasks = [("macro",), ("unset",), ("dependent",), ("orders",), ("retry",)]
     hdepth = 5 if ctx.thorough else 4
     for variant in ("macro", "plain"):
         for lo in range(len(h_ops())):
@@ -543,6 +611,10 @@ def run(ctx):
     for k in keys:
         for params in g:
             tasks.append(("sweep", k, reps[k], params))
+    for k in keys:
+        if k[2] != "range" or k[0] < 0 or k == keys[0]:
+            for params in ((256, 32768, (0, 32768), "default"), (1024, 32768, (32768, 0), "default"), (300, 7, (100, 30000), "sqrt")):
+                tasks.append(("sweep", k, reps[k], params + ("lenient",)))
     from rvmc.runner import rotate
 
     agg = C.Agg()
@@ -559,7 +631,7 @@ def run(ctx):
         "parameter_tuples": len(g), "sweeps": agg.counters.get("sweeps", 0),
         "macro_calls": agg.counters.get("macro_calls", 0),
         "unit_dependent_target_deliveries": agg.counters.get("dependent", 0),
-        "macro_argument_orders": agg.counters.get("orders", 0),
+        "macro_argument_orders": agg.counters.get("orders", 0), "macro_requests_retried_after_a_refusal": agg.counters.get("retry", 0),
         "operation_histories": agg.counters.get("histories", 0), "history_depth": hdepth, "history_ops": len(h_ops()),
         "samples": agg.samples,
     }
